@@ -396,30 +396,9 @@ mod proofs {
         c11_t_umad_l1_0_0 / c12_t_umad_l1_0_0 = <1>, (0.0, 0.0, 0);
         c11_t_umad_l1_1_0 / c12_t_umad_l1_1_0 = <1>, (1.0, 0.0, 0);
         c11_t_umad_l1_half_1 / c12_t_umad_l1_half_1 = <1>, (0.5, 1.0, 0);
-        c11_t_umad_l2_half_half / c12_t_umad_l2_half_half = <2>, (0.5, 0.5, 0);
-        c11_t_umad_l2_1_0 / c12_t_umad_l2_1_0 = <2>, (1.0, 0.0, 0);
     }
-    // one symbolic rate at a time, L = 1
-    #[cfg(feature = "thorough")]
-    #[kani::proof]
-    #[kani::unwind(7)]
-    fn c12_t_umad_l1_symbolic_add() {
-        let mut rng = SymRng::new();
-        let p = any_prob();
-        check_umad::<1>(p, 0.25, 0, true, &mut rng);
-        crate::witness!(p == 1.0, "WITNESS addition rate 1");
-        crate::witness!(p > 0.0 && p < 1.0, "WITNESS interior addition rate");
-    }
-    #[cfg(feature = "thorough")]
-    #[kani::proof]
-    #[kani::unwind(7)]
-    fn c12_t_umad_l1_symbolic_del() {
-        let mut rng = SymRng::new();
-        let p = any_prob();
-        check_umad::<1>(0.75, p, 0, true, &mut rng);
-        crate::witness!(p == 0.0, "WITNESS deletion rate 0");
-        crate::witness!(p > 0.0 && p < 1.0, "WITNESS interior deletion rate");
-    }
+    // (measured and dropped: L = 2 parents run out of 14 GB after 16 min; L = 1 with one symbolic rate
+    // runs out of memory as well -- both are outside the claim)
 
     macro_rules! rand_bits { ($($na:ident / $nb:ident = <$l:literal>;)*) => {$(
         #[kani::proof]
